@@ -293,11 +293,37 @@ class SMatch:
         return {name: self.group(gid) for name, gid in self.names.items()}
 
 
+_ND = []
+
+
+def decimal_ranges():
+    """Code point ranges matched by \\d in a str pattern without re.ASCII: every Unicode decimal digit (category Nd)."""
+    if not _ND:
+        start = None
+        for cp in range(0x110000):
+            if chr(cp).isdecimal():
+                if start is None:
+                    start = cp
+            elif start is not None:
+                _ND.append((start, cp - 1))
+                start = None
+    return _ND
+
+
+def digit_cond(vm, x):
+    t = zt(x)
+    if getattr(vm, 'rx_unicode', False):
+        return z3.Or([z3.And(t >= a, t <= b) for a, b in decimal_ranges()])
+    return z3.And(t >= 48, t <= 57)
+
+
 def cat_test(vm, x, cat):
-    if cat == sre_c.CATEGORY_DIGIT:
-        return atom_in_range(vm, x, 48, 57)      # ASCII-only alphabet assumed by the harness
-    if cat == sre_c.CATEGORY_NOT_DIGIT:
-        return not atom_in_range(vm, x, 48, 57)
+    if cat in (sre_c.CATEGORY_DIGIT, sre_c.CATEGORY_NOT_DIGIT):
+        if isinstance(x, int):
+            hit = (chr(x).isdecimal() if getattr(vm, 'rx_unicode', False) else 48 <= x <= 57)
+        else:
+            hit = vm.truth(mk_bool(digit_cond(vm, x)))
+        return hit == (cat == sre_c.CATEGORY_DIGIT)
     raise Unsupported('regex category %s' % cat)
 
 
@@ -313,7 +339,10 @@ def set_test(vm, x, items):
         elif op == sre_c.RANGE:
             conds.append(z3.And(zt(x) >= av[0], zt(x) <= av[1]))
         elif op == sre_c.CATEGORY and av == sre_c.CATEGORY_DIGIT:
-            conds.append(z3.And(zt(x) >= 48, zt(x) <= 57))
+            if isinstance(x, int):
+                conds.append(z3.TRUE if (chr(x).isdecimal() if getattr(vm, 'rx_unicode', False) else 48 <= x <= 57) else z3.FALSE)
+            else:
+                conds.append(digit_cond(vm, x))
         else:
             raise Unsupported('regex set item %s' % op)
     c = z3.Or(conds)
@@ -379,10 +408,18 @@ def rx_match(vm, items, idx, atoms, pos, groups, k):
     raise Unsupported('regex op %s' % op)
 
 
-def compile_rx(pattern):
+def compile_rx(pattern, flags=0, vm=None):
     if isinstance(pattern, re.Pattern):
+        flags = flags | (pattern.flags & ~re.UNICODE)
         pattern = pattern.pattern
-    p = sre_parse.parse(pattern)
+    if is_sym(flags):
+        raise Unsupported('symbolic regex flags')
+    p = sre_parse.parse(pattern, int(flags))
+    final = p.state.flags
+    if final & (re.IGNORECASE | re.MULTILINE | re.DOTALL | re.LOCALE):
+        raise Unsupported('regex flags %r on a symbolic string' % re.RegexFlag(final))
+    if vm is not None:
+        vm.rx_unicode = isinstance(pattern, str) and not (final & re.ASCII)
     return list(p), p.state.groups - 1, dict(p.state.groupdict)
 
 
@@ -390,7 +427,8 @@ def m_re_search(vm, args, kw, anchored=False):
     pattern, s = args[0], args[1]
     if not isinstance(s, SStr):
         return (re.match if anchored else re.search)(pattern, s)
-    items, ng, names = compile_rx(pattern)
+    flags = args[2] if len(args) > 2 else kw.get('flags', 0)
+    items, ng, names = compile_rx(pattern, flags, vm)
     atoms = s.a
     result = []
     for start in range(0, 1 if anchored else len(atoms) + 1):
@@ -582,7 +620,7 @@ def m_re_sub(vm, args, kw):
         return re.sub(*args, **kw)
     if not isinstance(repl, str) or '\\' in repl or len(args) > 3 or kw:
         raise Unsupported('re.sub with that replacement / count / flags on a symbolic string')
-    items, ng, names = compile_rx(pattern)
+    items, ng, names = compile_rx(pattern, 0, vm)
     atoms = s.a
     out = []
     pos = 0
